@@ -244,9 +244,116 @@ def run(F, rep):
                     for _, t in ser.calls())
         rep.ob("C14-ONCE", "the footer writer needs an open writer (fails otherwise)", needs, site="%s:%d" % (ser.file, ser.line_lo), key="C14-ONCE | serialize needs writer")
     # open() itself must not return Ok on a path where the deserialiser failed: covered by the fate rule above.
-    # notes: sites past the directory
-    rep.note("sites past the directory (load_params, CollectionVarInt::decode, batch parsing) are audited under C18; "
+    # ------------------------------------------------------------ C14-MISS: a directory that parses but lacks the metadata streams
+    # A truncation can leave a tail that passes the footer checks as a tiny or empty directory (e.g. `.. 00 | 01 00*7`
+    # after a short raw contig = "0 streams"); what it cannot do is name the metadata streams.  So the reader's code up
+    # to and including the first failed stream lookup is reachable with arbitrary directory contents and must be free of
+    # panics; code behind a successful lookup is not (notes).
+    miss_rule(F, rep, G)
+    rep.note("sites behind a successful lookup of a metadata stream (params payload, CollectionVarInt::decode, batch parsing) are audited under C18; "
              "a prefix of a create-produced archive cannot name the metadata streams (DESIGN 4/C14)")
+
+
+DEC_OPEN = "ragc_core::decompressor::Decompressor::open"
+LOOKUP = r"ragc_common::archive::Archive::get_stream_id$"
+
+
+def _lookup_success_entries(f):
+    """entry blocks of the arms taken when a get_stream_id lookup succeeded (match Some / `?` after ok_or_else)"""
+    out = set()
+    ts = {x["block"]: x for x in try_sites(f)}
+    for bi, t in f.calls():
+        if t.get("indirect") or not re.search(LOOKUP, t["callee"]):
+            continue
+        # follow the Option through ok_or / ok_or_else / context to a `?`, or to a discriminant switch
+        cur = t["dest"]["l"]
+        b = t["t"]
+        hops = 0
+        while b is not None and hops < 8:
+            hops += 1
+            blk = f.blocks[b]
+            sw = blk["term"]
+            disc = [s_ for s_ in blk["stmts"] if s_["k"] == "assign" and s_["rv"]["k"] == "discr" and s_["rv"]["pl"]["l"] == cur]
+            if disc and sw["k"] == "switch":
+                for v, tb in sw["targets"]:
+                    if v == 1:
+                        out.add(tb)
+                break
+            if sw["k"] == "call" and not sw.get("indirect") and any(a.get("pl", {}).get("l") == cur for a in sw["args"] if a["k"] in ("move", "copy")):
+                if sw.get("decl") == "core::ops::try_trait::Try::branch":
+                    x = ts.get(b)
+                    if x and x["ok"] is not None:
+                        out.add(x["ok"])
+                    break
+                cur = sw["dest"]["l"]
+                b = sw["t"]
+                continue
+            if sw["k"] in ("goto", "drop") or (sw["k"] == "call" and sw.get("t") is not None):
+                b = sw.get("t")
+                continue
+            break
+    return out
+
+
+def miss_rule(F, rep, G):
+    opn = F.funcs.get(DEC_OPEN)
+    if not rep.floor("C14-MISS", 1 if opn else 0, 1, "Decompressor::open"):
+        return
+    g = cfg_of(opn)
+    # the gate: the first callee of open (outside the archive module) that looks a stream up; its `?` must dominate the rest
+    gate = None
+    for bi, t in sorted(opn.calls()):
+        c = t["callee"]
+        if t.get("indirect") or c not in F.funcs or c.startswith("ragc_common::archive::"):
+            continue
+        if any(not t2.get("indirect") and re.search(LOOKUP, t2["callee"]) for _, t2 in F.funcs[c].calls()):
+            if gate is None or g.dominates(bi, gate[0]):
+                gate = (bi, t)
+    if not rep.floor("C14-MISS", 1 if gate else 0, 1, "first metadata lookup reached from Decompressor::open (load_params)"):
+        return
+    gb, gt = gate
+    fate = result_fate(F, opn, gb, gt)
+    rep.ob("C14-MISS", "Decompressor::open propagates the failure of its first metadata lookup (%s)" % gt["callee"].rsplit("::", 1)[-1], fate in ("propagated", "returned"),
+           detail="fate: %s" % fate, site=site_of(opn, gt), key="C14-MISS | open | gate propagated")
+    ok_blocks = {x["ok"] for x in try_sites(opn) if x["ok"] is not None}
+    # blocks of open() that run before the gate succeeded
+    after = set()
+    for x in try_sites(opn):
+        src_is_gate = x["ok"] is not None and g.dominates(gb, x["block"]) and x["block"] in g.reachable_from(gb) and \
+            not any(t2["k"] == "call" and not t2.get("indirect") and t2["callee"] in F.funcs and t2 is not gt and g.dominates(gb, b2) and g.dominates(b2, x["block"])
+                    for b2, t2 in opn.calls() if b2 != gb and b2 != x["block"] and t2.get("decl") != "core::ops::try_trait::Try::branch" and not re.search(r"context|map_err", t2["callee"]))
+        if src_is_gate:
+            after |= {b for b in g.reach if g.dominates(x["ok"], b)}
+            break
+    n = 0
+    bodies = [(opn, lambda b: b not in after and not opn.blocks[b]["cleanup"])]
+    gf = F.funcs[gt["callee"]]
+    gg = cfg_of(gf)
+    succ_entries = _lookup_success_entries(gf)
+    behind = {b for b in gg.reach for e in succ_entries if gg.dominates(e, b)}
+    rep.ob("C14-MISS", "%s has a success arm for its stream lookup (what lies behind it needs a named stream)" % gf.key.rsplit("::", 1)[-1], bool(succ_entries),
+           site="%s:%d" % (gf.file, gf.line_lo), key="C14-MISS | %s | success arm found" % gf.key)
+    bodies.append((gf, lambda b: b not in behind and not gf.blocks[b]["cleanup"]))
+    for f, armed in bodies:
+        aud = Auditor(f)
+        for bi, b in enumerate(f.blocks):
+            if not armed(bi) or bi not in cfg_of(f).reach:
+                continue
+            t = b["term"]
+            if t["k"] == "assert":
+                n += 1
+                ok, why = aud.discharge(bi, t)
+                rep.ob("C14-MISS", "%s in %s (reachable with a directory that lacks the metadata streams)" % (aud.describe(t), _short(f.key)), ok, detail=why,
+                       site=site_of(f, t), key="C14-MISS | %s | %s" % (f.key, aud.describe(t)))
+            elif t["k"] == "call" and not t.get("indirect") and not t["sp"].get("exp"):
+                c = t["callee"]
+                if PANICKY.search(c) or re.search(r"ops::index::Index(Mut)?<.*>>::index(_mut)?$|ops::index::Index(Mut)?>::index(_mut)?$|::swap_remove$|Vec::<T, A>::remove$", c):
+                    n += 1
+                    rep.ob("C14-MISS", "panic-capable call %s in %s (reachable with a directory that lacks the metadata streams)" % (c.rsplit("::", 2)[-2] + "::" + c.rsplit("::", 1)[-1], _short(f.key)),
+                           False, detail="unwrap/expect/index on data derived from a directory whose contents are arbitrary", site=site_of(f, t),
+                           key="C14-MISS | %s | %s" % (f.key, c))
+    rep.ob("C14-MISS", "no panic-capable site before the first successful metadata lookup (%d sites examined in open and %s)" % (n, gf.key.rsplit("::", 1)[-1]), True, how="trivial",
+           key="C14-MISS | summary")
 
 
 def _short(k):
